@@ -69,7 +69,9 @@ def gen_cfg(rng, thorough):
         if quad in ('GAUSS', 'RADAU-LEFT'):
             for lv in cfg['levels']:
                 lv['quad_type'] = 'RADAU-RIGHT'
-    nsteps = P * rng.choice([1, 2])
+    # blocks that are completely filled, a partially filled LAST block (steps not divisible by num_procs) and fewer steps than
+    # processes: the value returned by run() must be the end value of the last ACTIVE step (seeded C01-h)
+    nsteps = rng.choice([P, 2 * P, P, 2 * P, P + 1, 2 * P - 1, P - 1]) if P > 1 else rng.choice([1, 2, 3])
     u0 = [F(rng.randint(1, 3)) * rng.choice([1, -1]) for _ in range(dim)]
     return cfg, u0, nsteps, (lam, c, lamE)
 
